@@ -121,7 +121,12 @@ int Loop(Ctx &ctx, const std::function<std::string(Rng &)> &gen, const std::func
     }
     // shard i runs cases i, i+k, i+2k ... of the global sequence; each case has its own sub-seed
     for (long n = ctx.shard; n < ctx.cases; n += ctx.nshards) {
-        Rng r(Ctx::mix(ctx.seed, (uint64_t)n));
+        // finalised (murmur-style) combination so that nearby seeds give unrelated case sequences
+        uint64_t z = (ctx.seed + 0x632BE59BD9B4E019ULL) * 0x9E3779B97F4A7C15ULL;
+        z ^= z >> 32; z *= 0xD6E8FEB86659FD93ULL; z ^= z >> 32;
+        z += (uint64_t)n * 0xBF58476D1CE4E5B9ULL;
+        z ^= z >> 30; z *= 0x94D049BB133111EBULL; z ^= z >> 31;
+        Rng r(z);
         const std::string c = gen(r);
         ctx.begin(c);
         run(ctx, c);
